@@ -66,6 +66,10 @@ def cases(tier, rng):
         rs += [rng.choice([1, 4096, 65536]) for _ in range(rng.range(0, 12))]
         line = "c01ws %d %s %d %s" % (len(ws), " ".join(map(str, ws)), len(rs), " ".join(map(str, rs)))
         cs.append({"line": line, "key": line, "tags": {"carrier": "ws-adapter", "n": total, "dir": "adapter"}})
+    # the bytes reach the target of the channel that was ASKED for (names that are prefixes / extensions of each other)
+    for names, reqs in (([b"db", b"db2", b"web"], [b"db2", b"db", b"web"]), ([b"a", b"ab", b"abc"], [b"abc", b"ab", b"a"])):
+        line = "c03 %d %s 0 %d %s" % (len(names), " ".join("#" + n.hex() for n in names), len(reqs), " ".join("#" + n.hex() for n in reqs))
+        cs.append({"line": line, "key": line, "model": False, "tags": {"carrier": "memory", "n": 0, "dir": "routing", "names": [n.decode() for n in names], "reqs": [n.decode() for n in reqs]}})
     # the client's standard-stream listener (the ProxyCommand use): the application talks to the listener over one duplex stream
     for c in (["tcp", "ws", "kcp", "tcp-starttls"] if thorough else ["tcp", "ws"]):
         for n in ((1, 40000, 1000000) if thorough else (40000,)):
@@ -378,6 +382,22 @@ def oracle(case, impl):
         return []
     if p[0] in ("setup", "connect"):
         return [("no-connection;carrier=" + t["carrier"], "no logical connection could be opened: " + impl[:100])]
+    if t["dir"] == "routing":
+        # c03 observation: filter ok <n> tags.. then per request dial <tag> | refused; then dials ..
+        body = p[3 + int(p[2]):p.index("dials")]
+        res, j = [], 0
+        while j < len(body):
+            if body[j] == "dial":
+                res.append(int(body[j + 1]))
+                j += 2
+            else:
+                res.append(None)
+                j += 1
+        out = []
+        for rq, got in zip(t["reqs"], res):
+            if got is None or t["names"][got] != rq:
+                out.append(("bytes-to-wrong-target", "a connection for channel %r was %s" % (rq, "refused" if got is None else "connected to the target of channel %r" % t["names"][got])))
+        return out
     if t["dir"] == "parallel":
         out = []
         q = impl.split(" c ")
